@@ -1,3 +1,327 @@
 (* Proofs about the PWB v2 packet model (Codec/Pwb.v). *)
-From Coq Require Import Sorted.
+From Coq Require Import Sorted FinFun.
 From AG Require Import Base.Prelude Base.Res Base.Bytes Base.Mask Codec.Adc Codec.Pwb.
+
+(* ================= A. channels and the readout order ================= *)
+
+Lemma chan_eqb_eq a b : chan_eqb a b = true <-> a = b.
+Proof.
+  destruct a, b; cbn [chan_eqb]; split; intros H; try discriminate; try (apply N.eqb_eq in H; subst; reflexivity);
+    inversion H; subst; apply N.eqb_refl.
+Qed.
+Lemma chan_eqb_refl a : chan_eqb a a = true.
+Proof. apply chan_eqb_eq. reflexivity. Qed.
+
+Lemma In_Nrange i n : In i (Nrange n) <-> i < N.of_nat n.
+Proof.
+  unfold Nrange. rewrite in_map_iff. split.
+  - intros (k & <- & Hk). apply in_seq in Hk. lia.
+  - intros H. exists (N.to_nat i). split; [lia|]. apply in_seq. lia.
+Qed.
+
+Lemma position_In x l k : position x l = Some k -> In x l.
+Proof.
+  revert k. induction l as [|c t IH]; intros k; cbn [position]; [discriminate|].
+  destruct (chan_eqb c x) eqn:Ec.
+  - apply chan_eqb_eq in Ec. subst. intros _. left. reflexivity.
+  - destruct (position x t) eqn:Ep; [|discriminate]. intros _. right. eapply IH. reflexivity.
+Qed.
+Lemma position_None x l : position x l = None <-> ~ In x l.
+Proof.
+  induction l as [|c t IH]; cbn [position In]; [tauto|].
+  destruct (chan_eqb c x) eqn:Ec.
+  - apply chan_eqb_eq in Ec. subst. split; [discriminate|]. intros H. exfalso. apply H. left. reflexivity.
+  - assert (c <> x) by (intros ->; rewrite chan_eqb_refl in Ec; discriminate).
+    destruct (position x t) eqn:Ep.
+    + split; [discriminate|]. intros H1. exfalso. apply H1. right. eapply position_In. eassumption.
+    + split; [|reflexivity]. intros _ [H1|H1]; [contradiction|]. apply IH in H1; [assumption|reflexivity].
+Qed.
+Lemma position_nth x l k : position x l = Some k -> nth_error l (N.to_nat k) = Some x.
+Proof.
+  revert k. induction l as [|c t IH]; intros k; cbn [position]; [discriminate|].
+  destruct (chan_eqb c x) eqn:Ec.
+  - apply chan_eqb_eq in Ec. subst. intros [= <-]. reflexivity.
+  - destruct (position x t) eqn:Ep; [|discriminate]. intros [= <-].
+    replace (N.to_nat (n + 1)) with (S (N.to_nat n)) by lia. cbn [nth_error]. apply IH. reflexivity.
+Qed.
+Lemma position_lt x l k : position x l = Some k -> k < lenN l.
+Proof.
+  intros H. apply position_nth in H. assert (nth_error l (N.to_nat k) <> None) by congruence.
+  apply nth_error_Some in H0. unfold lenN. lia.
+Qed.
+
+Lemma readout_order_length : length readout_order = 79%nat.
+Proof. reflexivity. Qed.
+
+(* finite checks over the 79 readout indices / the 79 channels *)
+Lemma readout_fwd_check :
+  forallb (fun i => match readout_chan i with
+                    | Some c => (chan_readout c =? i) && chan_valid c &&
+                                match chan_of_readout Checked i, chan_of_readout Wrapping i with
+                                | Ok a, Ok b => chan_eqb a c && chan_eqb b c
+                                | _, _ => false
+                                end
+                    | None => false end) (map N.succ (Nrange 79)) = true.
+Proof. vm_compute. reflexivity. Qed.
+Lemma readout_bwd_check :
+  forallb (fun c => match readout_chan (chan_readout c) with Some c' => chan_eqb c' c | None => false end &&
+                    (1 <=? chan_readout c) && (chan_readout c <=? 79) &&
+                    match c with
+                    | Reset n => (1 <=? n) && (n <=? 3)
+                    | Fpn n => (1 <=? n) && (n <=? 4)
+                    | Pad n => (1 <=? n) && (n <=? 72)
+                    end) readout_order = true.
+Proof. vm_compute. reflexivity. Qed.
+
+Lemma readout_chan_range i c : readout_chan i = Some c -> 1 <= i <= 79.
+Proof.
+  unfold readout_chan. destruct (N.eqb_spec i 0); [discriminate|]. intros H.
+  assert (nth_error readout_order (N.to_nat (i - 1)) <> None) by congruence.
+  apply nth_error_Some in H0. rewrite readout_order_length in H0. lia.
+Qed.
+Lemma readout_chan_none i : i = 0 \/ 80 <= i -> readout_chan i = None.
+Proof.
+  unfold readout_chan. intros [->|H]; [reflexivity|].
+  destruct (N.eqb_spec i 0); [reflexivity|]. apply nth_error_None. rewrite readout_order_length. lia.
+Qed.
+Lemma in_succ_range i : 1 <= i <= 79 -> In i (map N.succ (Nrange 79)).
+Proof.
+  intros H. apply in_map_iff. exists (i - 1). split; [lia|]. apply In_Nrange. lia.
+Qed.
+
+Lemma readout_fwd i c : readout_chan i = Some c ->
+  chan_readout c = i /\ chan_valid c = true /\ 1 <= i <= 79 /\ forall m, chan_of_readout m i = Ok c.
+Proof.
+  intros H. pose proof (readout_chan_range i c H) as R.
+  pose proof readout_fwd_check as F. rewrite forallb_forall in F. specialize (F i (in_succ_range i R)).
+  rewrite H in F. apply andb_true_iff in F. destruct F as [F F3]. apply andb_true_iff in F. destruct F as [F1 F2].
+  apply N.eqb_eq in F1. repeat split; try assumption; try lia.
+  intros m. destruct (chan_of_readout Checked i) eqn:E1; try discriminate.
+  destruct (chan_of_readout Wrapping i) eqn:E2; try discriminate.
+  apply andb_true_iff in F3. destruct F3 as [G1 G2]. apply chan_eqb_eq in G1, G2. subst.
+  destruct m; assumption.
+Qed.
+
+Lemma chan_valid_In c : chan_valid c = true -> In c readout_order.
+Proof.
+  unfold chan_valid, chan_readout. destruct (position c readout_order) eqn:Ep.
+  - intros _. eapply position_In. eassumption.
+  - rewrite N.eqb_refl. discriminate.
+Qed.
+Lemma In_chan_valid c : In c readout_order -> chan_valid c = true.
+Proof.
+  intros H. unfold chan_valid, chan_readout. destruct (position c readout_order) eqn:Ep.
+  - destruct (N.eqb_spec (n + 1) 0); [lia|reflexivity].
+  - apply position_None in Ep. contradiction.
+Qed.
+
+Lemma readout_bwd c : chan_valid c = true ->
+  readout_chan (chan_readout c) = Some c /\ 1 <= chan_readout c <= 79.
+Proof.
+  intros H. apply chan_valid_In in H.
+  pose proof readout_bwd_check as F. rewrite forallb_forall in F. specialize (F c H).
+  repeat (apply andb_true_iff in F; destruct F as [F ?]).
+  destruct (readout_chan (chan_readout c)) eqn:E1; [|discriminate].
+  apply chan_eqb_eq in F. subst. split; [reflexivity|lia].
+Qed.
+
+Lemma chan_valid_shape c : chan_valid c = true <->
+  match c with Reset n => 1 <= n <= 3 | Fpn n => 1 <= n <= 4 | Pad n => 1 <= n <= 72 end.
+Proof.
+  split.
+  - intros H. apply chan_valid_In in H.
+    pose proof readout_bwd_check as F. rewrite forallb_forall in F. specialize (F c H).
+    apply andb_true_iff in F. destruct F as [_ F]. destruct c; lia.
+  - intros H. apply In_chan_valid.
+    destruct c as [n|n|n].
+    + assert (n = 1 \/ n = 2 \/ n = 3) as [->|[->| ->]] by lia; vm_compute; tauto.
+    + assert (n = 1 \/ n = 2 \/ n = 3 \/ n = 4) as [->|[->|[->| ->]]] by lia; vm_compute; tauto.
+    + assert (G : forallb (fun k => existsb (chan_eqb (Pad (N.succ k))) readout_order) (Nrange 72) = true)
+        by (vm_compute; reflexivity).
+      rewrite forallb_forall in G. specialize (G (n - 1)). rewrite In_Nrange in G.
+      replace (N.succ (n - 1)) with n in G by lia. specialize (G ltac:(lia)).
+      apply existsb_exists in G. destruct G as (x & Hx & Ex). apply chan_eqb_eq in Ex. subst. assumption.
+Qed.
+
+(* the decoder's conversion is the documented readout order, in both overflow modes, for every u16 (every N) *)
+Lemma chan_of_readout_pure m i :
+  chan_of_readout m i = match readout_chan i with Some c => Ok c | None => Err PE end.
+Proof.
+  destruct (readout_chan i) eqn:Er.
+  - apply readout_fwd in Er. apply Er.
+  - assert (R : i = 0 \/ 80 <= i).
+    { destruct (N.eq_dec i 0); [left; assumption|]. destruct (N.le_gt_cases 80 i); [right; assumption|].
+      exfalso. pose proof readout_fwd_check as F. rewrite forallb_forall in F.
+      specialize (F i (in_succ_range i ltac:(lia))). rewrite Er in F. discriminate. }
+    unfold chan_of_readout. destruct R as [->|R]; [reflexivity|].
+    replace ((1 <=? i) && (i <=? 3)) with false by lia.
+    replace (i =? 16) with false by lia. replace (i =? 29) with false by lia.
+    replace (i =? 54) with false by lia. replace (i =? 67) with false by lia.
+    replace ((4 <=? i) && (i <=? 79)) with false by lia. reflexivity.
+Qed.
+
+Lemma readout_chan_d_ok i : 1 <= i <= 79 ->
+  readout_chan i = Some (readout_chan_d i) /\ chan_readout (readout_chan_d i) = i /\ chan_valid (readout_chan_d i) = true.
+Proof.
+  intros R. unfold readout_chan_d. destruct (readout_chan i) eqn:Er.
+  - apply readout_fwd in Er. tauto.
+  - exfalso. pose proof readout_fwd_check as F. rewrite forallb_forall in F.
+    specialize (F i (in_succ_range i R)). rewrite Er in F. discriminate.
+Qed.
+Lemma readout_chan_d_bwd c : chan_valid c = true -> readout_chan_d (chan_readout c) = c.
+Proof. intros H. unfold readout_chan_d. destruct (readout_bwd c H) as [-> _]. reflexivity. Qed.
+
+Lemma readout_order_NoDup : NoDup readout_order.
+Proof.
+  assert (H : NoDup (map chan_readout readout_order)).
+  { replace (map chan_readout readout_order) with (map N.succ (Nrange 79)) by (vm_compute; reflexivity).
+    apply FinFun.Injective_map_NoDup; [intros a b; lia|].
+    unfold Nrange. apply FinFun.Injective_map_NoDup; [intros a b; lia|]. apply seq_NoDup. }
+  apply NoDup_map_inv in H. assumption.
+Qed.
+
+(* ================= B. the mask loop ================= *)
+
+Lemma filter_none {A} (p : A -> bool) l : (forall x, In x l -> p x = false) -> filter p l = [].
+Proof.
+  induction l as [|a t IH]; intros H; cbn [filter]; [reflexivity|].
+  rewrite (H a) by (left; reflexivity). apply IH. intros x Hx. apply H. right. assumption.
+Qed.
+
+Lemma Nrange_split n k : (k < n)%nat ->
+  Nrange n = Nrange k ++ [N.of_nat k] ++ map N.of_nat (seq (S k) (n - S k)).
+Proof.
+  intros H. unfold Nrange. replace n with (k + (1 + (n - S k)))%nat at 1 by lia.
+  rewrite seq_app, map_app. f_equal.
+Qed.
+
+Lemma mask_bits_In num n i : In i (mask_bits num n) <-> i < N.of_nat n /\ N.testbit num i = true.
+Proof. unfold mask_bits. rewrite filter_In, In_Nrange. tauto. Qed.
+
+Lemma Nrange_sorted n : StronglySorted N.lt (Nrange n).
+Proof.
+  unfold Nrange. generalize 0%nat as a. induction n as [|n IH]; intros a; cbn [seq map]; constructor.
+  - apply IH.
+  - apply Forall_forall. intros x Hx. apply in_map_iff in Hx. destruct Hx as (k & <- & Hk).
+    apply in_seq in Hk. lia.
+Qed.
+Lemma filter_sorted (p : N -> bool) l : StronglySorted N.lt l -> StronglySorted N.lt (filter p l).
+Proof.
+  induction 1 as [|a t Ht IH Ha]; cbn [filter]; [constructor|].
+  destruct (p a); [|assumption]. constructor; [assumption|].
+  rewrite Forall_forall in *. intros x Hx. apply filter_In in Hx. apply Ha. tauto.
+Qed.
+Lemma mask_bits_sorted num n : StronglySorted N.lt (mask_bits num n).
+Proof. apply filter_sorted, Nrange_sorted. Qed.
+
+(* two strictly ascending lists with the same elements are equal *)
+Lemma sorted_ext (l1 l2 : list N) : StronglySorted N.lt l1 -> StronglySorted N.lt l2 ->
+  (forall x, In x l1 <-> In x l2) -> l1 = l2.
+Proof.
+  intros S1. revert l2. induction S1 as [|a t St IH Ha]; intros l2 S2 H.
+  - destruct l2 as [|b u]; [reflexivity|]. exfalso. apply (H b). left. reflexivity.
+  - destruct S2 as [|b u Su Hb].
+    + exfalso. apply (H a). left. reflexivity.
+    + rewrite Forall_forall in Ha, Hb.
+      assert (a = b).
+      { destruct (proj1 (H a) (or_introl eq_refl)) as [E|E]; [symmetry; assumption|].
+        destruct (proj2 (H b) (or_introl eq_refl)) as [E'|E']; [assumption|].
+        specialize (Ha _ E'). specialize (Hb _ E). lia. }
+      subst b. f_equal. apply IH; [assumption|]. intros x. split; intros Hx.
+      * destruct (proj1 (H x) (or_intror Hx)) as [E|E]; [|assumption]. subst x. specialize (Ha _ Hx). lia.
+      * destruct (proj2 (H x) (or_intror Hx)) as [E|E]; [|assumption]. subst x. specialize (Hb _ Hx). lia.
+Qed.
+
+Lemma high_bits_bound x n : (forall i, n <= i -> N.testbit x i = false) -> x < 2 ^ n.
+Proof.
+  intros H. destruct (N.eq_dec x 0) as [->|Hx]; [apply N.neq_0_lt_0, N.pow_nonzero; lia|].
+  apply N.log2_lt_pow2; [lia|].
+  destruct (N.lt_ge_cases (N.log2 x) n) as [L|L]; [assumption|].
+  specialize (H (N.log2 x) L). rewrite (N.bit_log2 x Hx) in H. discriminate.
+Qed.
+Lemma bound_high_bits x n i : x < 2 ^ n -> n <= i -> N.testbit x i = false.
+Proof.
+  intros H L. destruct (N.eq_dec x 0) as [->|Hx]; [apply N.bits_0|].
+  apply N.bits_above_log2. apply N.log2_lt_pow2 in H; lia.
+Qed.
+
+Lemma lz128_log2 x : x <> 0 -> N.log2 x < 128 -> 127 - lz128 x = N.log2 x /\ lz128 x <= 127.
+Proof.
+  intros Hx L. unfold lz128. rewrite N.size_log2 by assumption. lia.
+Qed.
+
+(* padwing.rs:1390-1394: the loop pushes the set bits from the highest to the lowest; fuel n suffices when
+   no bit at or above position n is set *)
+Lemma mask_loop_spec m : forall fuel n num, (n <= fuel)%nat -> (n <= 128)%nat ->
+  (forall i, N.of_nat n <= i -> N.testbit num i = false) ->
+  mask_loop m fuel num = Ok (rev (mask_bits num n)).
+Proof.
+  induction fuel as [|k IH]; intros n num Hn H128 Hhi.
+  - assert (num = 0).
+    { apply N.bits_inj_0. intros i. apply Hhi. lia. }
+    subst. cbn [mask_loop]. rewrite N.eqb_refl.
+    unfold mask_bits. rewrite filter_none; [reflexivity|]. intros x _. apply N.bits_0.
+  - cbn [mask_loop]. destruct (N.eqb_spec num 0) as [->|Hx].
+    + unfold mask_bits. rewrite filter_none; [reflexivity|]. intros x _. apply N.bits_0.
+    + set (b := N.log2 num).
+      assert (Tb : N.testbit num b = true) by (apply N.bit_log2; assumption).
+      assert (Lb : b < N.of_nat n).
+      { destruct (N.lt_ge_cases b (N.of_nat n)) as [L|L]; [assumption|]. rewrite (Hhi b L) in Tb. discriminate. }
+      destruct (lz128_log2 num Hx ltac:(fold b; lia)) as [Lz1 Lz2]. fold b in Lz1.
+      rewrite usub_ok by assumption. cbn [bind]. rewrite Lz1.
+      unfold u16_unwrap. replace (b <? 65536) with true by lia. cbn [bind].
+      unfold ushl. replace (b <? 128) with true by lia. cbn [bind].
+      rewrite N.mul_1_l. rewrite N.mod_small by (apply N.pow_lt_mono_r; lia).
+      set (num' := N.lxor num (2 ^ b)).
+      assert (Hhi' : forall i, N.of_nat (N.to_nat b) <= i -> N.testbit num' i = false).
+      { intros i Hi. unfold num'. rewrite N.lxor_spec, N.pow2_bits_eqb.
+        destruct (N.eqb_spec b i) as [<-|Ne]; [rewrite Tb; reflexivity|].
+        rewrite N.bits_above_log2 by (fold b; lia). reflexivity. }
+      rewrite (IH (N.to_nat b) num') by (assumption || lia). cbn [bind]. f_equal.
+      rewrite <- rev_unit. f_equal.
+      unfold mask_bits. rewrite (Nrange_split n (N.to_nat b)) by lia.
+      rewrite !filter_app. rewrite N2Nat.id. cbn [filter]. rewrite Tb.
+      rewrite (filter_none _ (map _ _)).
+      * rewrite app_nil_r. f_equal. apply filter_ext_in. intros i Hi. apply In_Nrange in Hi.
+        unfold num'. rewrite N.lxor_spec, N.pow2_bits_false by lia. apply xorb_false_r.
+      * intros x Hx'. apply in_map_iff in Hx'. destruct Hx' as (j & <- & Hj). apply in_seq in Hj.
+        apply N.bits_above_log2. fold b. lia.
+Qed.
+
+Theorem mask_bits_ascending_lemma m num : num < 2 ^ 128 ->
+  mask_loop m 128 num = Ok (rev (mask_bits num 128)) /\ StronglySorted N.lt (mask_bits num 128).
+Proof.
+  intros H. split; [|apply mask_bits_sorted].
+  apply mask_loop_spec; try lia. intros i Hi. apply (bound_high_bits num 128); [assumption|lia].
+Qed.
+
+Lemma le_val_app_zeros a z : Forall (fun b => b = 0) z -> le_val (a ++ z) = le_val a.
+Proof.
+  intros Hz. induction a as [|x a IH]; cbn [app le_val].
+  - induction Hz as [|b z Hb Hz IHz]; cbn [le_val]; [reflexivity|]. subst. rewrite IHz. reflexivity.
+  - rewrite IH. reflexivity.
+Qed.
+
+Lemma map_res_ok {A B} (f : A -> res B) (g : A -> B) l : (forall a, In a l -> f a = Ok (g a)) ->
+  map_res f l = Ok (map g l).
+Proof.
+  induction l as [|a t IH]; intros H; cbn [map_res map]; [reflexivity|].
+  rewrite H by (left; reflexivity). cbn [bind]. rewrite IH by (intros; apply H; right; assumption). reflexivity.
+Qed.
+
+(* padwing.rs:1384-1400: ten mask bytes with bit 79 clear -> the channels of the set bits, ascending *)
+Lemma mask_chans_ok m s : lenN s = 10 -> le_val s < 2 ^ 79 ->
+  mask_chans m s = Ok (mask_chan_list (le_val s)).
+Proof.
+  intros L B. unfold mask_chans. rewrite arr_ok by assumption. cbn [bind].
+  rewrite le_val_app_zeros by (repeat constructor).
+  set (num := le_val s) in *.
+  assert (Hhi : forall i, N.of_nat 79 <= i -> N.testbit num i = false).
+  { intros i Hi. apply (bound_high_bits num 79); [assumption|lia]. }
+  rewrite (mask_loop_spec m 128 79 num) by (assumption || lia). cbn [bind].
+  rewrite rev_involutive. unfold mask_chan_list. apply map_res_ok.
+  intros i Hi. apply mask_bits_In in Hi. destruct Hi as [Hi _].
+  rewrite uadd_ok by (change (2^16) with 65536; lia). cbn [bind].
+  rewrite chan_of_readout_pure.
+  destruct (readout_chan_d_ok (i + 1) ltac:(lia)) as (-> & _). reflexivity.
+Qed.
